@@ -59,11 +59,15 @@ def run_native(test_code, module, cfg, only_tag, root, extra_files, log, tag="re
             cmd.append("--no-default-features")
         if feats:
             cmd += ["--features", ",".join(feats)]
-        if profile == "release":
-            cmd.append("--release")
         cmd += ["--", test_name]
         env = kani_run.kani_env(dbg)
-        env["CARGO_TARGET_DIR"] = os.path.join(root, "t-replay")
+        if profile == "release":
+            # `cargo kani playback` has no --release; give the dev/test profile release semantics instead
+            for prof in ("DEV", "TEST"):
+                env["CARGO_PROFILE_%s_OPT_LEVEL" % prof] = "3"
+                env["CARGO_PROFILE_%s_DEBUG_ASSERTIONS" % prof] = "false"
+                env["CARGO_PROFILE_%s_OVERFLOW_CHECKS" % prof] = "false"
+        env["CARGO_TARGET_DIR"] = os.path.join(root, "t-replay-" + profile)
         p = subprocess.run(cmd, cwd=crate, env=env, stdout=subprocess.PIPE, stderr=subprocess.STDOUT,
                            text=True, errors="replace", timeout=1200)
         txt = p.stdout
